@@ -116,6 +116,15 @@ pub fn render(case: &Case, res: &exec::RunResult) -> String {
   for m in monitor::check(case, res, &status) {
     out.push_str(&format!("!monitor {} | {}\n", m.0, m.1));
   }
+  // a thread that panicked inside the code under test and a run that then ended in a deadlock / budget stop:
+  // the status line says deadlock, but the panic is the defect to name (its thread died holding its handles)
+  if let (true, Some((t, m))) = (status.starts_with("deadlock") || status == "budget", &panic) {
+    for mm in monitor::check(case, res, &format!("panic:{}:{}", t, m)) {
+      if mm.0.contains(":panic") {
+        out.push_str(&format!("!monitor {} | {} (the run then ended with X {})\n", mm.0, mm.1, status));
+      }
+    }
+  }
   out.push_str("#end\n");
   out
 }
